@@ -297,7 +297,7 @@ func (b *batch) render() *stageFailure {
 			return nil
 		}
 		extra := b.opts.extraS
-		if file == "gv.go" {
+		if file == "zgv.go" {
 			extra = nil
 		}
 		src, err := renderFile(mode, "s", st, progs, extra)
@@ -318,9 +318,12 @@ func (b *batch) render() *stageFailure {
 	// package-level variables live in their own file (the generated programs refer to them from other
 	// files); the file uses the API itself so that the compiler processes it
 	gl := &Program{Name: "GVfile", Profile: "globals"}
-	gl.Decls = []*Decl{{Kind: "raw", Raw: "var GV0, GV1, GV2 int\n\n$GEN{GVTouch(a int)}{int}{\n\t$YIELD{a}\n\t$RET\n}"}}
+	// (the file sorts last, so the first program file is the first file the compiler visits; GVDur/GVBuf give other
+	// files a callee whose parameter type comes from a package they import for nothing else)
+	gl.Imports = []string{`"time"`, `"strings"`}
+	gl.Decls = []*Decl{{Kind: "raw", Raw: "var GV0, GV1, GV2 int\n\nfunc GVDur(d time.Duration) int { return int(d / time.Millisecond) }\n\nfunc GVBuf(b *strings.Builder) int { return b.Len() }\n\n$GEN{GVTouch(a int)}{int}{\n\t$YIELD{a}\n\t$RET\n}"}}
 	for _, m := range []struct{ mode, dir string }{{"S", "s"}, {"R", "r"}} {
-		if f := write(m.mode, m.dir, "gv.go", styleAt(2), []*Program{gl}); f != nil {
+		if f := write(m.mode, m.dir, "zgv.go", styleAt(2), []*Program{gl}); f != nil {
 			return f
 		}
 	}
@@ -623,7 +626,7 @@ func (t *tools) runBatchX(progs []*Program, opts batchOpts, reducing bool) (*bat
 		return res, b
 	}
 	res.compileT = time.Since(t0)
-	for _, fn := range []string{"p.go", "q.go", "r.go", "t.go", "p_test.go", "gv.go"} {
+	for _, fn := range []string{"p.go", "q.go", "r.go", "t.go", "p_test.go", "zgv.go"} {
 		if o, err := os.ReadFile(filepath.Join(b.dir, "o", fn)); err == nil {
 			res.outO += string(o)
 		}
